@@ -1,7 +1,9 @@
 import NumbersModel.Drv.Proto
 import NumbersModel.Model.Formula
+import NumbersModel.Model.FormulaLex
+import NumbersModel.Model.FormulaAcceptDefs
 namespace NumbersModel.Drv
-open NumbersModel NumbersModel.Formula
+open NumbersModel NumbersModel.Formula NumbersModel.Formula.Parse
 
 /-- node word `ty/a/b/c/text` (meaning of a,b,c by node type, see harness/checks/c08.py). -/
 def parseNode (w : String) : Option Node :=
@@ -63,6 +65,49 @@ def parseExprs : Nat → Nat → List String → Option (List Expr × List Strin
     pure (e :: es, r)
 end
 
+/-! ### canonical one-line s-expression of a parse tree (texts hex-encoded, numbers by value) -/
+
+def opNum : BinOp → Nat
+  | .add => 1 | .sub => 2 | .mul => 3 | .div => 4 | .pow => 5 | .concat => 6
+  | .gt => 7 | .ge => 8 | .lt => 9 | .le => 10 | .eq => 11 | .ne => 12
+
+/-- `n / 10^k` without trailing zeros in the fraction. -/
+def normDec : Nat → Nat → Nat → Nat × Nat
+  | 0, n, k => (n, k)
+  | f + 1, n, k => if k > 0 ∧ n % 10 = 0 then normDec f (n / 10) (k - 1) else (n, k)
+
+def showNum (t : Text) : String :=
+  match decValue t with
+  | some (n, k) => let (n, k) := normDec (k + 1) n k; s!"(num {n} {k})"
+  | none => s!"(num ? {showText t})"
+
+mutual
+def showPT : PT → String
+  | .num t => showNum t
+  | .str s => s!"(str {showText s})"
+  | .bool b => if b then "(bool 1)" else "(bool 0)"
+  | .name t => s!"(name {showText t})"
+  | .empty => "(empty)"
+  | .bin o l r => s!"(bin {opNum o} {showPT l} {showPT r})"
+  | .neg e => s!"(neg {showPT e})"
+  | .pct e => s!"(pct {showPT e})"
+  | .paren es => "(paren" ++ showPTs es ++ ")"
+  | .call f args => s!"(call {showText f}" ++ showPTs args ++ ")"
+  | .arr rows => "(arr" ++ showPTRows rows ++ ")"
+def showPTs : List PT → String
+  | [] => ""
+  | e :: es => " " ++ showPT e ++ showPTs es
+def showPTRows : List (List PT) → String
+  | [] => ""
+  | r :: rs => " (row" ++ showPTs r ++ ")" ++ showPTRows rs
+end
+
+def showOptPT : Option PT → String
+  | some t => showPT t
+  | none => "none"
+
+def flag (b : Bool) : String := if b then "1" else "0"
+
 def handleFormula : List String → Option String
   | "exec" :: ws => do
     let nodes ← ws.mapM parseNode
@@ -74,6 +119,26 @@ def handleFormula : List String → Option String
     if rest ≠ [] then none
     pure (showPyM showText (formulaText (compile e)) ++ " " ++ showText (render e) ++ " " ++
       (if WellFormed e then "1" else "0") ++ " " ++ toString (compile e).length)
+  -- the Lean lexer + parser on a formula text (the harness sends what the REAL library printed)
+  | ["read", t] => do
+    let t ← parseText t
+    pure ("ok " ++ showOptPT (readText t))
+  -- what the stored tree denotes, whether it satisfies the hypotheses of `read_render`, and whether the
+  -- model's own text is read back to it
+  | "canon" :: ws => do
+    let (e, rest) ← parseExpr (ws.length + 1) ws
+    if rest ≠ [] then none
+    let c := canon e
+    pure ("ok " ++ showPT c ++ " " ++ flag (WellParen e) ++ " " ++ flag (RefsSafe e) ++ " " ++
+      flag (showOptPT (readText (render e)) == showPT c))
+  -- is the stored tree inside the domain of C18's `reader_output_accepted_partial`?
+  | "toksafe" :: ws => do
+    let (e, rest) ← parseExpr (ws.length + 1) ws
+    if rest ≠ [] then none
+    pure ("ok " ++ flag (FormulaAccept.TokSafe e))
+  | ["namesafe", t] => do
+    let t ← parseText t
+    pure ("ok " ++ flag (nameSafe t))
   | _ => none
 
 end NumbersModel.Drv
